@@ -29,6 +29,7 @@ type Job struct {
 	MaxCases  int     `json:"max_cases,omitempty"`
 	DetCheck  int     `json:"det_check"` // re-execute every n-th case and compare trace hashes (0: never)
 	Only      string  `json:"only,omitempty"`
+	Mode      string  `json:"mode,omitempty"` // "" | sim | race
 	Dump      bool    `json:"dump,omitempty"` // record one fingerprint line per case (determinism self-test)
 }
 
@@ -97,10 +98,17 @@ type runner struct {
 	keys     map[uint64]bool
 	seqCache map[uint64]*Outcome
 	seqOrder []uint64
+	minSpent time.Duration
+	lastMin  *RunConfig
 }
 
 func (r *runner) exec(c *RunConfig) *Outcome {
-	o := Execute(r.t, c)
+	var o *Outcome
+	if r.job.Mode == "race" {
+		o = ExecutePlain(c, 5*time.Minute)
+	} else {
+		o = Execute(r.t, c)
+	}
 	r.res.Executions++
 	r.res.Steps += int64(o.Sim.Steps)
 	r.res.Choices += int64(o.Sim.Choices)
@@ -260,10 +268,23 @@ func hasClause(vs []Violation, clause string) (Violation, bool) {
 
 // minimise shrinks a failing configuration while the same oracle clause fails.
 func (r *runner) minimise(c RunConfig, picks []int, clause string) (RunConfig, bool) {
-	deadline := time.Now().Add(25 * time.Second)
+	// bounded: per class at most 60 evaluations / 8 s, per process at most 40 s
+	// in total; past the budget the original configuration with its recorded
+	// picks is reported as it is
+	if r.minSpent > 40*time.Second {
+		return c, false
+	}
+	t0 := time.Now()
 	evals := 0
+	defer func() {
+		r.minSpent += time.Since(t0)
+		if os.Getenv("VERIF_DEBUG") != "" {
+			fmt.Fprintf(os.Stderr, "minimise %s %s: %d evals %.1fs\n", clause, c.String(), evals, time.Since(t0).Seconds())
+		}
+	}()
+	deadline := t0.Add(8 * time.Second)
 	fails := func(x *RunConfig) bool {
-		if evals > 150 || time.Now().After(deadline) {
+		if evals > 60 || time.Now().After(deadline) {
 			return false
 		}
 		evals++
@@ -289,7 +310,10 @@ func (r *runner) minimise(c RunConfig, picks []int, clause string) (RunConfig, b
 	}
 	try(func(x *RunConfig) { x.Picks = nil })
 	try(func(x *RunConfig) { x.Chunk = ChunkSpec{Kind: "full"} })
-	try(func(x *RunConfig) { x.ReadYield = 1 })
+	if cur.Chunk.Kind == "full" {
+		// (with short reads every Read would become a scheduling point: far too many steps)
+		try(func(x *RunConfig) { x.ReadYield = 1 })
+	}
 	try(func(x *RunConfig) { x.Fault.Sticky = true })
 	if cur.Fault.Kind != "none" && cur.Fault.Kind != "eof" {
 		try(func(x *RunConfig) { x.Fault.Kind = "eof" })
@@ -332,7 +356,7 @@ func (r *runner) minimise(c RunConfig, picks []int, clause string) (RunConfig, b
 		n /= 2
 	}
 	// then individual picks
-	for i := 0; i < len(cur.Picks) && evals < 150; i++ {
+	for i := 0; i < len(cur.Picks) && evals < 60; i++ {
 		if cur.Picks[i] == 0 {
 			continue
 		}
@@ -354,7 +378,33 @@ func (r *runner) report(c *RunConfig, idx int, viol Violation, o *Outcome) {
 			return
 		}
 	}
-	min, ok := r.minimise(*c, o.Sim.Picks, viol.Clause)
+	if r.job.Mode == "race" {
+		rf := ReplayFile{Property: c.Prop, Clause: viol.Clause, Detail: viol.Detail, Seed: r.job.Seed, CaseIdx: idx, RepoRev: r.job.RepoRev, Config: *c,
+			Note: "observed by the race monitor (real goroutines, schedule not controlled); not replayable bit-for-bit"}
+		name := fmt.Sprintf("%s-%d-%d-racemon-%s.json", c.Prop, r.job.Seed, idx, sanitize(viol.Clause+"-"+c.Workflow))
+		path := filepath.Join(r.job.ReplayDir, name)
+		b, _ := json.MarshalIndent(rf, "", " ")
+		os.MkdirAll(r.job.ReplayDir, 0755)
+		os.WriteFile(path, b, 0644)
+		r.res.Found = append(r.res.Found, Found{Violation: viol, Workflow: c.Workflow, Replay: path, CaseIdx: idx, Count: 1})
+		return
+	}
+	var min RunConfig
+	ok := false
+	if r.lastMin != nil {
+		// another clause of the same case was already minimised: reuse that
+		// configuration if it shows this clause too
+		if vs0, _ := r.evaluate(r.lastMin); func() bool { _, h := hasClause(vs0, viol.Clause); return h }() {
+			min, ok = *r.lastMin, true
+		}
+	}
+	if !ok {
+		min, ok = r.minimise(*c, o.Sim.Picks, viol.Clause)
+		if ok {
+			m2 := min
+			r.lastMin = &m2
+		}
+	}
 	final := min
 	vs, fo := r.evaluate(&final)
 	fv, still := hasClause(vs, viol.Clause)
@@ -450,13 +500,17 @@ func TestBatch(t *testing.T) {
 			if job.Only != "" && c.Workflow != job.Only {
 				continue
 			}
+			tc := time.Now()
 			vs, o := r.evaluate(&c)
 			res.Cases++
+			if os.Getenv("VERIF_DEBUG") != "" && time.Since(tc) > 2*time.Second {
+				fmt.Fprintf(os.Stderr, "slow case %d %s read_yield=%d: %.1fs steps=%d\n", idx, c.String(), c.ReadYield, time.Since(tc).Seconds(), o.Sim.Steps)
+			}
 			r.note(o)
 			if job.Dump {
 				res.Dump = append(res.Dump, fmt.Sprintf("%d %x %v %q steps=%d picks=%d", idx, o.Sim.TraceHash, o.Verdict, o.Err, o.Sim.Steps, len(o.Sim.Picks)))
 			}
-			if job.DetCheck > 0 && mine%job.DetCheck == 0 {
+			if job.DetCheck > 0 && mine%job.DetCheck == 0 && job.Mode != "race" {
 				o2 := Execute(t, &c)
 				res.DetChecked++
 				if o2.Sim.TraceHash != o.Sim.TraceHash || o2.Verdict != o.Verdict || o2.Err != o.Err {
@@ -475,6 +529,7 @@ func TestBatch(t *testing.T) {
 				res.Samples = append(res.Samples, b)
 			}
 			seen := map[string]bool{}
+			r.lastMin = nil
 			for _, x := range vs {
 				if seen[x.Clause] {
 					continue
